@@ -37,8 +37,8 @@ def CLS():
 
 
 class ChunkGen:
-    def __init__(self, ctx, log, g):
-        self.ctx, self.log, self.g = ctx, log, g
+    def __init__(self, ctx, log, g, raw=None):
+        self.ctx, self.log, self.g, self.raw = ctx, log, g, raw
         self.calls = 0
         self.closed = False
 
@@ -47,6 +47,8 @@ class ChunkGen:
         if self.calls == 1 and ctx.fork(2, "chunk-ready") == 1:
             self.log.append(("chunk", "wait"))
             return None
+        if self.raw is not None:
+            ctx.st(self.raw)["v"] = ctx.fresh("bytes", "rest-after-chunk")      # the chunk's bytes are consumed: some suffix is left
         last = ctx.fork(2, "last-chunk") == 1
         if last:
             size, chunk = 0, ctx.alloc("buf", init={"v": b""})
@@ -74,7 +76,7 @@ def setup(B, mode):
     g["acc"] = b""
     g["trails"] = None
     msg = B.buf(hint="msg")
-    B.prog.modular[HTTPING + ":parseChunk"] = Stub(lambda c, a, k: c.alloc("ext", init={"model": ChunkGen(c, log, g)}))
+    B.prog.modular[HTTPING + ":parseChunk"] = Stub(lambda c, a, k: c.alloc("ext", init={"model": ChunkGen(c, log, g, raw=k.get("raw", a[0] if a else None))}))
     hu = ufunc("truthy_Headers", E.usort("Headers"), z3.BoolSort())
     h1 = z3.Const("h!ax", E.usort("Headers"))
     ctx.assume(z3.ForAll([h1], hu(h1), patterns=[hu(h1)]))
@@ -182,6 +184,11 @@ def parse_body_chunked(B):
     if B.returned():
         return
     body = z(BI.as_text(ctx, st["body"]))
+    got = [e[1] for e in log if e[0] == "chunk" and e[1] in ("last", "data")]
+    if CLS() == RESP and got and got[-1] == "data":
+        # (client side: Client.service closes the respondent when the server hung up and goes ON parsing what is buffered)
+        B.prove("the-body-ends-before-the-last-chunk-only-when-the-connection-is-closed-and-NOTHING-is-left-to-decode",
+                z3.And(z(st["closed"]), z3.Length(z(ctx.st(msg)["v"])) == 0), top=True, props=["C17", "C13"])
     B.prove("body-is-the-data-chunks-in-order", body == z(g["acc"]), top=True)
     B.prove("length-is-the-decoded-size-and-bodied", z3.And(z(st["length"], "int") == z3.Length(body), z(st["bodied"])), top=True)
     B.prove("trailers-of-the-last-chunk-kept", True if g["trails"] is None else st["trails"] is g["trails"], top=True)
